@@ -708,7 +708,34 @@ pub fn check_case(ctx: &mut Ctx, case: &Case, cfg: &Cfg, props: &[String], want_
 
     // ---- C15 cursors
     if has(props, "C15") {
-        let cursors = cursor_offsets(text, &tin, 400);
+        let mut cursors = cursor_offsets(text, &tin, 400);
+        // the list is "any finite list": ascending, descending, interleaved from both ends, with repetitions
+        match text.len() % 4 {
+            1 => cursors.reverse(),
+            2 => {
+                let (mut lo, mut hi) = (0usize, cursors.len());
+                let mut w = Vec::with_capacity(cursors.len() + 2);
+                while lo < hi {
+                    hi -= 1;
+                    w.push(cursors[hi]);
+                    if lo < hi {
+                        w.push(cursors[lo]);
+                        lo += 1;
+                    }
+                }
+                if let Some(&f) = w.first() {
+                    w.push(f);
+                }
+                cursors = w;
+            }
+            3 => {
+                let n = cursors.len();
+                let mut w: Vec<u32> = (0..n).map(|k| cursors[(k * 7 + 3) % n.max(1)]).collect();
+                w.extend(cursors.iter().copied());
+                cursors = w;
+            }
+            _ => {}
+        }
         let rc = ctx.run(text, cfg, &cursors, true);
         let b = res.session.call(&rc, wf);
         res.session.rel("cursor", a, b);
